@@ -200,7 +200,9 @@ fn run_huge_zst(ctx: &mut Ctx) {
             }
             continue;
         }
-        for i in [0usize, 1, dim / 2, dim - 1, dim, dim + 1, usize::MAX] {
+        // only appending (and out-of-range indices): inserting in the middle of such an array may
+        // legitimately take time proportional to the huge dimension in a different implementation
+        for i in [dim, dim + 1, usize::MAX] {
             for len in [other, other + 1, other.saturating_sub(1)] {
                 ctx.case(
                     || format!("TooDee<()> {}x{} {}({}, {} items)", c, r, if row { "insert_row" } else { "insert_col" }, i, len),
@@ -252,7 +254,11 @@ impl Prop for C06P {
                 v.push(format!("{} {}x{}", tag, c, r));
             }
         }
-        v.push("hugezst".into());
+        if tier == Tier::Thorough {
+            // arrays of () with close to usize::MAX cells: thorough tier only, because they assume that
+            // appending / removing the last line does not take time proportional to the cell count
+            v.push("hugezst".into());
+        }
         v
     }
     fn run_unit(&self, unit: &str, ctx: &mut Ctx) {
